@@ -249,6 +249,7 @@ func checkC07(c *Ctx, r *Result, tier string) {
 
 	c07Channel(c, r)
 	c07Lexer(c, r)
+	c07ErrorLoss(c, r)
 }
 
 func dedup(s []string) []string {
@@ -539,4 +540,88 @@ func c07Lexer(c *Ctx, r *Result) {
 		})
 	}
 	r.Floor("R07d-state", n, 3)
+}
+
+// ---- R07e ------------------------------------------------------------------------------------------
+
+// c07ErrorLoss: the parser's position p.node is nil exactly when the call that advanced it
+// returned an error (next() returns (nil, err)); every function of the parser relies on
+// "err == nil ⇒ p.node != nil". The invariant survives only if no error of a parser function is
+// ever dropped: on every path where the error is non-nil the caller returns a non-nil error or
+// inspects it.
+func c07ErrorLoss(c *Ctx, r *Result) {
+	total := 0
+	track := func(in ssa.Instruction) (int, string, bool) {
+		call, ok := in.(*ssa.Call)
+		if !ok {
+			return 0, "", false
+		}
+		sig, ok := call.Call.Value.Type().Underlying().(*types.Signature)
+		if call.Call.IsInvoke() {
+			sig, ok = call.Call.Method.Type().(*types.Signature), true
+		}
+		if !ok || sig == nil || sig.Results().Len() == 0 {
+			return 0, "", false
+		}
+		last := sig.Results().Len() - 1
+		if sig.Results().At(last).Type().String() != "error" {
+			return 0, "", false
+		}
+		// calls into the parser itself (static, closures, denotation function values)
+		inParser := false
+		for _, f := range c.Callees(call) {
+			if c.PkgOf(f) == "parser" {
+				inParser = true
+			}
+		}
+		if !inParser {
+			return 0, "", false
+		}
+		name := "call"
+		if f := call.Call.StaticCallee(); f != nil {
+			name = f.Name()
+		} else if !call.Call.IsInvoke() {
+			name = accessPath(call.Call.Value)
+		} else {
+			name = call.Call.Method.Name()
+		}
+		if sig.Results().Len() == 1 {
+			return -1, name, true
+		}
+		return last, name, true
+	}
+	for _, fn := range c.ModFuncs() {
+		if c.PkgOf(fn) != "parser" {
+			continue
+		}
+		root := fn
+		for root.Parent() != nil {
+			root = root.Parent()
+		}
+		if root.Name() == "ASTFromJSONObject" || strings.HasPrefix(root.Name(), "init") {
+			continue
+		}
+		key := c.FuncKey(fn)
+		n, fs, complete := errorLossOf(c, fn, track)
+		if n == 0 && len(fs) == 0 {
+			continue
+		}
+		total += n
+		if !complete {
+			r.Undecide("R07e: path exploration of %s exceeded its state bound", key)
+			continue
+		}
+		ord := newOrdinals()
+		for _, f := range fs {
+			site := ord.key(key, "errloss", f.What)
+			pos := c.Pos(c.InstrPos(f.Call))
+			r.Instance("R07e", site, pos, "finding", f.Msg, true)
+			r.Report(Finding{Rule: "R07e", Site: site, Pos: pos,
+				Msg: key + ": " + f.Msg + " — after a failed advance the parser's position is nil; continuing without the error dereferences it (Parse panics instead of returning an error) or accepts the input"})
+		}
+		if len(fs) == 0 {
+			r.Instance("R07e", key, c.Pos(fn.Pos()), "ok", fmt.Sprintf("%d parser call(s) returning an error: on every path a non-nil error is returned or inspected", n), true)
+		}
+	}
+	r.Floor("R07e-calls", total, 60)
 }
